@@ -18,6 +18,7 @@ import (
 	"runtime"
 	"sort"
 	"strings"
+	"sync"
 )
 
 type Case struct {
@@ -33,6 +34,7 @@ type Prop struct {
 	Run  func(fields []string) string         // run one case (fields after the component id) on the real code
 	Init func(tier string) error              // optional set-up (temp dirs, ...)
 	Done func()                               // optional tear-down
+	Parallel int                              // > 1: cases are independent and may run on that many workers
 }
 
 var props = map[string]*Prop{}
@@ -131,13 +133,38 @@ func main() {
 	outKinds := map[string]int{}
 	distinct := map[string]bool{}
 	var samples []string
-	for i, c := range cases {
+	results := make([]string, len(cases))
+	for _, c := range cases {
 		fields := strings.Fields(c.Line)
 		if len(fields) == 0 || fields[0] != id {
 			fmt.Fprintln(os.Stderr, "bad case line:", c.Line)
 			os.Exit(2)
 		}
-		res := safeRun(p, fields[1:])
+	}
+	if p.Parallel > 1 {
+		var wg sync.WaitGroup
+		idx := make(chan int)
+		for w := 0; w < p.Parallel; w++ {
+			wg.Add(1)
+			go func() {
+				defer wg.Done()
+				for i := range idx {
+					results[i] = safeRun(p, strings.Fields(cases[i].Line)[1:])
+				}
+			}()
+		}
+		for i := range cases {
+			idx <- i
+		}
+		close(idx)
+		wg.Wait()
+	} else {
+		for i, c := range cases {
+			results[i] = safeRun(p, strings.Fields(c.Line)[1:])
+		}
+	}
+	for i, c := range cases {
+		res := results[i]
 		res = strings.ReplaceAll(res, "\n", "\\n")
 		fmt.Fprintln(cw, c.Line)
 		fmt.Fprintln(iw, res)
